@@ -18,6 +18,7 @@ def run(sh):
     for it in range(K):
         case = gen.gen_pipeline_case(rng)
         api = 'func' if rng.random() < 0.7 else 'obj'
+        case['reuse_options'] = bool(rng.random() < 0.3)
         pipeline.run_case(sh, case, PROP, api=api, nontrivial=nontrivial)
     for k, v in attach.COUNTS.items():
         if k.startswith('C01:'):
